@@ -37,6 +37,30 @@ FIELDS = {
                               ("_population_g_i", "LG"), ("_population_ph_i", "LP"), ("_fitness_i", "LQ"),
                               ("_stats", "LS"), ("_on_generation", "CB")],
 }
+# adaptive subclasses: their own state next to the base record (field _ea)
+BASE = {"SHADE": "EvolutionaryAlgorithm", "jDE": "EvolutionaryAlgorithm", "SHAGA": "EvolutionaryAlgorithm"}
+FIELDS["SHADE"] = [("_ea", "EvolutionaryAlgorithm"), ("_F", "LQ"), ("_CR", "LQ"), ("_H_F", "LQ"), ("_H_CR", "LQ"), ("_k", "Z"), ("_H_size", "Z"), ("_p", "Q"),
+                   ("_pbest_id", "LZ"), ("_population_archive", "LG"), ("_population_g_archive_i", "LG")]
+FIELDS["jDE"] = [("_ea", "EvolutionaryAlgorithm"), ("_F", "LQ"), ("_CR", "LQ")]
+FIELDS["SHAGA"] = [("_ea", "EvolutionaryAlgorithm"), ("_MR", "LQ"), ("_CR", "LQ"), ("_H_MR", "LQ"), ("_H_CR", "LQ"), ("_k", "Z"), ("_H_size", "Z")]
+SUB_SRC = {"SHADE": "thefittest/optimizers/_shade.py", "jDE": "thefittest/optimizers/_jde.py", "SHAGA": "thefittest/optimizers/_shaga.py"}
+# per subclass: the pinned text of the comprehension that builds the trial vectors (the variation operators: an oracle d_trials),
+# the methods that draw random numbers (oracles) and the pure update rules (GenCode's translation of the same source)
+SUB_TRIALS = {
+    "SHADE": "np.array([get_new_individ_g(individ_g=self._population_g_i[i], F=self._F[i], CR=self._CR[i]) for i in range(self._pop_size)], dtype=np.float64)",
+    "jDE": "np.array([get_new_individ_g(individ_g=self._population_g_i[i], F=mutate_F[i], CR=mutate_CR[i]) for i in range(self._pop_size)], dtype=np.float64)",
+    "SHAGA": "np.array([get_new_individ_g(individ_g=self._population_g_i[i], MR=self._MR[i], CR=self._CR[i]) for i in range(self._pop_size)], dtype=np.float64)",
+}
+SUB_ORACLES = {   # method -> (argument types, result type)
+    "SHADE": {"_generate_F_CR": ([], "LQLQ"), "_append_archive": (["LG", "LG"], "LG")},
+    "jDE": {"_get_mutate_F": ([], "LQ"), "_get_mutate_CR": ([], "LQ")},
+    "SHAGA": {"_generate_MR_CR": ([], "LQLQ")},
+}
+SUB_PURE = {      # method -> (GenCode definition, argument types, result type)
+    "SHADE": {"_update_u_F": ("py_SHADE_update_u_F", ["Q", "LQ"], "Q"), "_update_u_CR": ("py_SHADE_update_u_CR", ["Q", "LQ", "LQ"], "Q")},
+    "jDE": {},
+    "SHAGA": {"_update_u": ("py_SHAGA_update_u", ["Q", "LQ", "LQ"], "Q")},
+}
 # _on_generation : Optional[Callable] is modelled by (is it set, how often was it called): the callback itself is the user's
 METHODS = {
     "TheFittest": {
@@ -56,6 +80,8 @@ METHODS = {
         "fit": ([], "EvolutionaryAlgorithm"),
     },
 }
+for _c in BASE:
+    METHODS[_c] = {"_get_new_population": ([], None)}
 METHODS["DifferentialEvolution"] = {
     "_get_init_population": ([], None),
     "_get_new_population": ([], None),
@@ -72,9 +98,9 @@ NOT_OVERRIDDEN = {"fit", "_termitation_check", "_get_fitness", "_update_fittest"
                   "get_fittest", "get_stats"}
 COQT = {"Z": "Z", "Q": "Q", "B": "bool", "QI": "Qinf", "G": "G", "P": "P", "LG": "list G", "LP": "list P", "LQ": "list Q",
         "OZ": "option Z", "OQ": "option Q", "TF": "TheFittest", "GPQI": "G * P * Qinf", "LS": "list StatsEntry", "SE": "StatsEntry", "LB": "list bool",
-        "CB": "bool * Z",
+        "CB": "bool * Z", "LZ": "list Z", "LQLQ": "list Q * list Q", "SHADE": "SHADE", "jDE": "jDE", "SHAGA": "SHAGA",
         "TheFittest": "TheFittest", "EvolutionaryAlgorithm": "EvolutionaryAlgorithm"}
-PREFIX = {"TheFittest": "tf", "EvolutionaryAlgorithm": "ea"}
+PREFIX = {"TheFittest": "tf", "EvolutionaryAlgorithm": "ea", "SHADE": "sh", "jDE": "jd", "SHAGA": "sg"}
 
 
 def fname(cls, f):
@@ -88,13 +114,32 @@ class MT:
         self.args, self.ret = METHODS[self.mcls][name]
         self.env = {a: t for a, t in self.args}
         self.writes = False
+        self.used_oracles = set()
 
     # ---------------------------------------------------------------- expressions
     def field_type(self, cls, f):
         for n, t in FIELDS[cls]:
             if n == f:
                 return t
+        if cls in BASE:
+            return self.field_type(BASE[cls], f)
         raise Untranslatable(self.node, f"field {f} of {cls} is not declared for translation")
+
+    def own(self, f):
+        return any(n == f for n, _ in FIELDS[self.cls])
+
+    def fget(self, f):
+        """code reading self.<f> (through the base record for an inherited field)"""
+        if self.own(f) or self.cls not in BASE:
+            return f"({fname(self.cls, f)} self)"
+        return f"({fname(BASE[self.cls], f)} ({fname(self.cls, '_ea')} self))"
+
+    def base_self(self):
+        return "self" if self.cls not in BASE else f"({fname(self.cls, '_ea')} self)"
+
+    def with_base(self, code):
+        """self with its base record replaced by <code>"""
+        return code if self.cls not in BASE else f"(set_{fname(self.cls, '_ea')} {code} self)"
 
     def expr(self, e):
         if isinstance(e, ast.Constant):
@@ -116,7 +161,9 @@ class MT:
                 return "PosInf", "QI"
             if isinstance(e.value, ast.Name) and e.value.id == "self":
                 t = self.field_type(self.cls, e.attr)
-                return f"({fname(self.cls, e.attr)} self)", t
+                if e.attr == "_ea":
+                    raise Untranslatable(e, "the base record is not a Python attribute")
+                return self.fget(e.attr), t
             if isinstance(e.value, ast.Attribute) and isinstance(e.value.value, ast.Name) and e.value.value.id == "self":
                 inner_t = self.field_type(self.cls, e.value.attr)
                 if inner_t != "TF":
@@ -142,6 +189,8 @@ class MT:
                 return f"({a} {op} {b})", "Z"
             if ta == "Z" and tb == "LQ" and op == "*":
                 return f"(smul (ZtoQ {a}) {b})", "LQ"
+            if ta == "LQ" and tb == "LQ" and op == "-":
+                return f"(vsub {a} {b})", "LQ"
             if ta in ("Z", "Q") and tb in ("Z", "Q"):
                 a = a if ta == "Q" else f"(ZtoQ {a})"
                 b = b if tb == "Q" else f"(ZtoQ {b})"
@@ -169,6 +218,10 @@ class MT:
             if ta == "Z" and tb == "OZ" and isinstance(op, ast.Eq):
                 # int == Optional[int]:  False when the right-hand side is None
                 return f"(match {b} with Some n_ => ({a} =? n_) | None => false end)", "B"
+            if ta == "LQ" and tb == "LQ" and isinstance(op, ast.Gt):
+                return f"(gt_mask {a} {b})", "LB"
+            if ta == "LQ" and tb == "LQ" and isinstance(op, ast.GtE):
+                return f"(geq_mask {a} {b})", "LB"
             if ta == "Z" and tb == "Z":
                 tab = {ast.Eq: "=?", ast.Lt: "<?", ast.LtE: "<=?", ast.Gt: ">?", ast.GtE: ">=?"}
                 if type(op) in tab:
@@ -181,6 +234,8 @@ class MT:
             return "(" + (" || " if isinstance(e.op, ast.Or) else " && ").join(c for c, _ in cs) + ")", "B"
         if isinstance(e, ast.Subscript):
             (a, ta), (i, ti) = self.expr(e.value), self.expr(e.slice)
+            if ti == "LB" and ta in ("LQ", "LG", "LP"):
+                return f"(mask_select {i} {a})", ta              # a[mask]: the elements at the True positions, in order (a copy)
             if ti != "Z":
                 raise Untranslatable(e, "index type")
             if ta == "LQ":
@@ -211,8 +266,40 @@ class MT:
                     return a, "B"
             if isinstance(e.func, ast.Attribute) and e.func.attr == "copy" and not e.args:
                 a, ta = self.expr(e.func.value)
-                if ta in ("G", "P"):
+                if ta in ("G", "P", "LQ", "LG", "LP"):
                     return a, ta
+            if n == "np.abs" and len(e.args) == 1:
+                a, ta = self.expr(e.args[0])
+                if ta == "LQ":
+                    return f"(vabs {a})", "LQ"
+            if n == "np.float64" and len(e.args) == 1:
+                a, ta = self.expr(e.args[0])
+                if ta == "Q":
+                    return a, "Q"
+            if n == "np.vstack" and len(e.args) == 1 and isinstance(e.args[0], ast.List) and len(e.args[0].elts) == 2:
+                (a, ta), (b, tb) = self.expr(e.args[0].elts[0]), self.expr(e.args[0].elts[1])
+                if ta == "LG" and tb == "LG":
+                    return f"({a} ++ {b})", "LG"
+            if n == "find_pbest_id" and len(e.args) == 2:
+                (a, ta), (b, tb) = self.expr(e.args[0]), self.expr(e.args[1])
+                if ta == "LQ" and tb == "Q":
+                    if "py_find_pbest_id" not in GENCODE_AVAILABLE:
+                        raise Untranslatable(e, "find_pbest_id has no translation in gen/GenCode.v")
+                    return f"(py_find_pbest_id {a} {b})", "LZ"           # GenCode's translation of utils.find_pbest_id
+            m_ = self.self_call(e)
+            if m_ is not None and m_ in SUB_PURE.get(self.cls, {}) and not e.keywords:
+                dname, ats, rt = SUB_PURE[self.cls][m_]
+                vs = [self.expr(x) for x in e.args]
+                if [t for _, t in vs] == ats:
+                    if dname not in GENCODE_AVAILABLE:
+                        raise Untranslatable(e, f"{m_} has no translation in gen/GenCode.v")
+                    return f"({dname} " + " ".join(c for c, _ in vs) + ")", rt      # GenCode's translation of the same method
+            if m_ is not None and m_ in SUB_ORACLES.get(self.cls, {}) and not e.keywords:
+                ats, rt = SUB_ORACLES[self.cls][m_]
+                vs = [self.expr(x) for x in e.args]
+                if [t for _, t in vs] == ats:
+                    self.used_oracles.add(m_)
+                    return f"(d_{PREFIX[self.cls]}{m_} self" + "".join(" " + c for c, _ in vs) + ")", rt    # draws random numbers: an oracle
             raise Untranslatable(e, "call of " + n)
         if isinstance(e, ast.Dict):
             keys = [k.value for k in e.keys]
@@ -226,7 +313,10 @@ class MT:
     # ---------------------------------------------------------------- statements
     def setter(self, field, code):
         # functional field update through the generated setter (keeps the terms small: a record literal would mention `self` once per field)
-        return f"(set_{fname(self.cls, field)} ({code}) self)"
+        if self.own(field) or self.cls not in BASE:
+            return f"(set_{fname(self.cls, field)} ({code}) self)"
+        b = BASE[self.cls]
+        return f"(set_{fname(self.cls, '_ea')} (set_{fname(b, field)} ({code}) ({fname(self.cls, '_ea')} self)) self)"
 
     def self_call(self, call):
         """(method name, argument codes) of  self._m(...)  /  None"""
@@ -291,6 +381,46 @@ class MT:
                     raise Untranslatable(s, "argument of Statistics._update")
                 self.writes = True      # Statistics._update (pinned below): one copied entry appended per key
                 return f"let self := {self.setter('_stats', '(' + fname(self.cls, '_stats') + ' self ++ [' + c + '])')} in\n" + self.block(rest, end)
+        # ---- subclasses (SHADE / jDE / SHAGA)
+        if self.cls in BASE:
+            if isinstance(s, ast.Assign) and isinstance(s.targets[0], ast.Name) and ast.unparse(s.value) == SUB_TRIALS[self.cls]:
+                self.env[s.targets[0].id] = "LG"
+                extra = "".join(" " + v for v in ("mutate_F", "mutate_CR") if self.cls == "jDE")
+                return f"let {s.targets[0].id} := d_{PREFIX[self.cls]}_trials self{extra} in\n" + self.block(rest, end)
+            # a, b = <pair>   with a, b fields of self
+            if isinstance(s, ast.Assign) and isinstance(s.targets[0], ast.Tuple) and len(s.targets[0].elts) == 2:
+                c, t = self.expr(s.value)
+                if t == "LQLQ":
+                    fs = [x.attr for x in s.targets[0].elts if isinstance(x, ast.Attribute) and isinstance(x.value, ast.Name) and x.value.id == "self"]
+                    if len(fs) == 2 and all(self.field_type(self.cls, f_) == "LQ" for f_ in fs):
+                        self.writes = True
+                        return (f"let '(t_1, t_2) := {c} in\nlet self := {self.setter(fs[0], 't_1')} in\nlet self := {self.setter(fs[1], 't_2')} in\n"
+                                + self.block(rest, end))
+                raise Untranslatable(s, "tuple assignment")
+            # x = self._get_phenotype(y)  /  x = self._get_fitness(y)   on the base record
+            if isinstance(s, ast.Assign) and isinstance(s.targets[0], ast.Name) and self.self_call(s.value) in ("_get_phenotype", "_get_fitness") \
+                    and len(s.value.args) == 1 and not s.value.keywords:
+                a, ta = self.expr(s.value.args[0])
+                x = s.targets[0].id
+                if self.self_call(s.value) == "_get_phenotype" and ta == "LG":
+                    self.env[x] = "LP"
+                    return f"let {x} := (d_get_phenotype {self.base_self()} {a}) in\n" + self.block(rest, end)
+                if self.self_call(s.value) == "_get_fitness" and ta == "LP":
+                    self.env[x] = "LQ"
+                    self.writes = True
+                    return (f"let '(b_, {x}) := py_EvolutionaryAlgorithm__get_fitness {self.base_self()} {a} in\nlet self := {self.with_base('b_')} in\n"
+                            + self.block(rest, end))
+                raise Untranslatable(s, "argument of " + self.self_call(s.value))
+            # self._f[i] = v
+            if isinstance(s, ast.Assign) and isinstance(s.targets[0], ast.Subscript) and isinstance(s.targets[0].value, ast.Attribute) \
+                    and isinstance(s.targets[0].value.value, ast.Name) and s.targets[0].value.value.id == "self" \
+                    and not (isinstance(s.targets[0].slice, ast.Name) and self.env.get(s.targets[0].slice.id) == "LB"):
+                f_ = s.targets[0].value.attr
+                (i, ti), (v, tv) = self.expr(s.targets[0].slice), self.expr(s.value)
+                if self.field_type(self.cls, f_) == "LQ" and ti == "Z" and tv == "Q":
+                    self.writes = True
+                    return f"let self := {self.setter(f_, 'setA ' + self.fget(f_) + ' ' + i + ' ' + v)} in\n" + self.block(rest, end)
+                raise Untranslatable(s, "indexed store into self." + f_)
         # ---- the trial vectors: partial(...) + list comprehension over the population = the variation operators (C07): an oracle here
         if isinstance(s, ast.Assign) and ast.unparse(s.value).startswith("partial(self._get_new_individ_g"):
             return self.block(rest, end)
@@ -316,7 +446,7 @@ class MT:
                     raise Untranslatable(s, "masked write types")
                 self.writes = True
                 m_ = s.targets[0].slice.id
-                return f"let self := {self.setter(tgt.attr, 'mask_write ' + m_ + ' ' + src + ' (' + fname(self.cls, tgt.attr) + ' self)')} in\n" + self.block(rest, end)
+                return f"let self := {self.setter(tgt.attr, 'mask_write ' + m_ + ' ' + src + ' ' + self.fget(tgt.attr))} in\n" + self.block(rest, end)
         # ---- x = self._m(...)  /  self._f = self._m(...)
         if isinstance(s, ast.Assign) and len(s.targets) == 1 and self.self_call(s.value) is not None and self.cls == "EvolutionaryAlgorithm":
             m = self.self_call(s.value)
@@ -444,6 +574,25 @@ class MT:
             self.env[x] = saved
             b = self.block(list(s.orelse) + rest, end)
             return f"match {x} with\n| Some {x} => (\n{a})\n| None => (\n{b})\nend"
+        if isinstance(s, ast.If) and self.cls in BASE and len(s.body) == 1 and len(s.orelse) == 1:
+            # if c: x = e1 / else: x = e2  (the same local name or the same field of self): one joined binding instead of two copies of the rest
+            def single(st):
+                if isinstance(st, ast.AugAssign):
+                    return ast.unparse(st.target), st.target, ast.BinOp(left=ast.parse(ast.unparse(st.target)).body[0].value, op=st.op, right=st.value)
+                if isinstance(st, ast.Assign) and len(st.targets) == 1:
+                    return ast.unparse(st.targets[0]), st.targets[0], st.value
+                return None, None, None
+            (ka, ta_, va), (kb, tb_, vb) = single(s.body[0]), single(s.orelse[0])
+            if ka is not None and ka == kb:
+                c, t = self.expr(s.test)
+                (ca, tya), (cb, tyb) = self.expr(va), self.expr(vb)
+                if t == "B" and tya == tyb:
+                    if isinstance(ta_, ast.Name):
+                        self.env[ta_.id] = tya
+                        return f"let {ta_.id} := (if {c} then {ca} else {cb}) in\n" + self.block(rest, end)
+                    if isinstance(ta_, ast.Attribute) and isinstance(ta_.value, ast.Name) and ta_.value.id == "self" and self.field_type(self.cls, ta_.attr) == tya:
+                        self.writes = True
+                        return f"let self := {self.setter(ta_.attr, 'if ' + c + ' then ' + ca + ' else ' + cb)} in\n" + self.block(rest, end)
         if isinstance(s, ast.If):
             c, t = self.expr(s.test)
             if t != "B":
@@ -485,7 +634,7 @@ class MT:
                 and n.func.value.id == "self" and n.func.attr in METHODS[self.cls] and METHODS[self.cls][n.func.attr][1] is None)
             for n in ast.walk(self.node))
         PURE = {"_get_aim", "_termitation_check", "get_remains_calls"}
-        if self.cls == "EvolutionaryAlgorithm" and self.name not in PURE:
+        if (self.cls == "EvolutionaryAlgorithm" and self.name not in PURE) or self.cls in BASE:
             self.writes_anywhere = True
         params = [a.arg for a in self.node.args.args] + ([self.node.args.kwarg.arg] if self.node.args.kwarg else [])
         if params[:1] != ["self"] or params[1:] != [a for a, _ in self.args]:
@@ -515,12 +664,22 @@ def init_of(cls, node):
     return vals
 
 
-def emit(out_file=OUT_FILE, src_root=None):
+GENCODE_AVAILABLE = set()
+
+
+def emit(out_file=OUT_FILE, src_root=None, need=None):
+    """need: class names whose untranslatable methods make this call fail (default: all) — GenLoop.v is written either way, with an
+    UNTRANSLATABLE comment in place of a definition, so that only the proofs about that class stop compiling"""
+    import re
+    gc = os.path.join(os.path.dirname(out_file), "GenCode.v")
+    GENCODE_AVAILABLE.clear()
+    if os.path.exists(gc):
+        GENCODE_AVAILABLE.update(re.findall(r"^Definition (py_\w+)", open(gc).read(), flags=re.M))
     path = os.path.join(src_root or C.SRC, SRC)
     mod = ast.parse(open(path).read())
     classes = {n.name: n for n in mod.body if isinstance(n, ast.ClassDef)}
     L_ = ["(* GENERATED on every run by harness/translate_loop.py from src/thefittest/base/_ea.py; DO NOT EDIT. *)",
-          "From TF Require Import Py.", "Open Scope Z_scope.", "", "Section Loop.",
+          "From TF Require Import Py.", "From TFG Require Import GenCode.", "Open Scope Z_scope.", "", "Section Loop.",
           "Variables G P : Type.", "Variables (dG : G) (dP : P).   (* what an out-of-range read of a population yields *)", ""]
     # Statistics._update is read as "append one copied entry per key": pinned by its text
     stat = classes.get("Statistics")
@@ -619,6 +778,43 @@ def emit(out_file=OUT_FILE, src_root=None):
             failed.append((f"DifferentialEvolution.{m}", str(ex)))
             L_.append(f"(* UNTRANSLATABLE DifferentialEvolution.{m}: {str(ex).replace('*)', '* )')} *)")
         L_.append("")
+    # ---- the adaptive subclasses: own state next to the base record; one generation's _get_new_population
+    for sub in ("SHADE", "jDE", "SHAGA"):
+        spath = os.path.join(src_root or C.SRC, SUB_SRC[sub])
+        scls = {n.name: n for n in ast.parse(open(spath).read()).body if isinstance(n, ast.ClassDef)}.get(sub)
+        fs = FIELDS[sub]
+        L_.append(f"(* {sub}: the base record and the subclass's own state *)")
+        L_.append(f"Record {sub} := {{ " + "; ".join(f"{fname(sub, f)} : {COQT[t]}" for f, t in fs) + " }.")
+        for f0, t0 in fs:
+            parts = [f"{fname(sub, f1)} := " + ("v" if f1 == f0 else f"{fname(sub, f1)} self") for f1, _ in fs]
+            L_.append(f"Definition set_{fname(sub, f0)} (v : {COQT[t0]}) (self : {sub}) : {sub} := {{| " + "; ".join(parts) + " |}.")
+        L_.append(f"(* oracles: the trial vectors (variation operators, C07) and the methods of {sub} that draw random numbers *)")
+        extra = " -> list Q -> list Q" if sub == "jDE" else ""
+        L_.append(f"Variable d_{PREFIX[sub]}_trials : {sub}{extra} -> list G.")
+        for m_, (ats, rt) in SUB_ORACLES[sub].items():
+            L_.append(f"Variable d_{PREFIX[sub]}{m_} : {sub} -> " + "".join(COQT[a] + " -> " for a in ats) + f"{COQT[rt]}.")
+        L_.append("")
+        if scls is None:
+            failed.append((sub, "class not found"))
+            L_.append(f"(* UNTRANSLATABLE {sub}: class not found *)")
+            continue
+        sdefs = {n.name: n for n in scls.body if isinstance(n, ast.FunctionDef)}
+        # the subclass must not override what the base-state theorems rely on, and its base must be what the record says
+        bases = [ast.unparse(b) for b in scls.bases]
+        if bases != (["DifferentialEvolution"] if sub in ("SHADE", "jDE") else ["EvolutionaryAlgorithm"]):
+            failed.append((sub, f"base classes {bases}"))
+        for m in METHODS[sub]:
+            if m not in sdefs:
+                failed.append((f"{sub}.{m}", "method not found"))
+                L_.append(f"(* UNTRANSLATABLE {sub}.{m}: method not found *)")
+                continue
+            try:
+                L_.append(f"(* {SUB_SRC[sub]}:{sdefs[m].lineno}  {sub}.{m} *)")
+                L_.append(MT(sub, m, sdefs[m]).translate())
+            except Untranslatable as ex:
+                failed.append((f"{sub}.{m}", str(ex)))
+                L_.append(f"(* UNTRANSLATABLE {sub}.{m}: {str(ex).replace('*)', '* )')} *)")
+            L_.append("")
     L_.append("(* EvolutionaryAlgorithm.__init__ (checked line by line by the translator): _sign = -1 if minimization else 1; _aim = _get_aim(optimal_value,")
     L_.append("   termination_error_value) evaluated with that sign; _calls = 0; _thefittest = TheFittest(); _stats = Statistics(); _iters, _pop_size,")
     L_.append("   _no_increase_num, _elitism, _keep_history, _on_generation as given; _n_jobs = _get_n_jobs(n_jobs) (C16); the populations are not set yet *)")
@@ -637,8 +833,9 @@ def emit(out_file=OUT_FILE, src_root=None):
     if old != text:
         with open(out_file, "w") as fh:
             fh.write(text)
-    if failed:
-        raise RuntimeError("base/_ea.py: methods outside the translated subset (the tie to the source is broken): " + "; ".join(f"{n}: {e}" for n, e in failed))
+    relevant = [(n, e) for n, e in failed if need is None or n.split(".")[0] in need]
+    if relevant:
+        raise RuntimeError("methods outside the translated subset (the tie to the source is broken): " + "; ".join(f"{n}: {e}" for n, e in relevant))
     return dict(failed=failed)
 
 
